@@ -348,6 +348,11 @@ def finish(ctx, traces_validated, rule=None, exhaustive=False, level="model_chec
             violations.append(rj)
     for fid, (f, n) in sorted(known_hits.items()):
         log("KNOWN-FINDING: property=%s %s %s (matched %d rejected line(s))" % (ctx.prop, fid, f.get("what", ""), n))
+    bywhy = {}
+    for rj in violations:
+        bywhy[rj.get("why")] = bywhy.get(rj.get("why"), 0) + 1
+    if bywhy:
+        log("REJECTIONS by requirement: " + ", ".join("%s=%d" % kv for kv in sorted(bywhy.items(), key=str)))
     rdir = os.path.join(VERIF, "replays", ctx.prop)
     seen = set()
     nviol = 0
